@@ -48,12 +48,12 @@ ASSUMPTIONS = ["float64 CPU", "scf_eps 1e-10 (some 1e-8): force noise 2e3 eps be
                "descent asserted only for alpha <= 2e-3 (DESIGN: at 2e-2 a C=O stretch legitimately overshoots)",
                "the tie 'criterion first met on the cap-th evaluation' is recorded, not judged (statement leaves it open)",
                "dE of a run with a single evaluation (E_1 - 0) is recorded, not judged"]
-REQUIRED_MONITORS = ["dispersion_runs", "continuation_second_run_first_steps_checked", "continuation_steps_compared",
+REQUIRED_MONITORS = ["sp2_heterogeneous_batch_steps_compared_with_alone", "dispersion_runs", "continuation_second_run_first_steps_checked", "continuation_steps_compared",
                      "true_evaluations_counted", "runs_with_force_tol_below_10_scf_eps_that_reached_it", "onestep_calls", "independent_single_points", "runs_stopped_by_criterion", "runs_stopped_by_cap",
                      "padding_atoms_checked", "alone_vs_batch_rows", "reuse_cap_run_after_converged_run",
                      "reuse_converged_run_after_cap_run"]
 CASE_TIMEOUT = 900.0
-BUDGET_S = {"quick": 200, "thorough": 1700}
+BUDGET_S = {"quick": 280, "thorough": 1700}
 MIN_NONTRIVIAL = 4
 
 EPS = 2.220446049250313e-16
@@ -137,6 +137,15 @@ def gen_cases(tier, seed):
                       "solver": ["adaptive", "pulay"][k % 2], "solver_par": None, "eps": eps, "grad": ["autodiff", "analytical"][k % 2],
                       "alpha": 0.008, "stop": ["abs", ft], "cap": cap_t, "sigma": 0.03, "extra_pad": 0, "pad_value": "zero",
                       "tolsweep": True, "geom_seed": int(g.integers(0, 2 ** 31))})
+    # SP2 purification (fixed mixing, no Pulay) on heterogeneous zero-padded batches: purifications of the members need
+    # different numbers of passes; isolation (path and energies vs alone) and descent with the SP2-aware allowance
+    slist = [(1e-6, "AM1", ["CH4", "H2O", "CH2O"]), (1e-7, "PM3", ["NH3", "HCN", "H2O"])] if q else \
+            [(t, me, ml) for t in (1e-5, 1e-6, 1e-7) for me, ml in (("AM1", ["CH4", "H2O", "CH2O"]), ("PM3", ["NH3", "HCN", "H2O"]),
+                                                                        ("MNDO", ["CH2O", "HF", "CH4"]), ("AM1", ["C2H4", "H2", "CH3OH"]))]
+    for k, (t, me, ml) in enumerate(slist):
+        cases.append({"mols": ml, "method": me, "solver": "sp2mix", "solver_par": t, "mix": 0.2, "eps": 1e-8,
+                      "grad": ["autodiff", "analytical"][k % 2], "alpha": 2e-3, "stop": ["cap", 0.0], "cap": 16 if q else 25, "sigma": 0.05,
+                      "extra_pad": int(k % 2), "pad_value": "zero", "geom_seed": int(g.integers(0, 2 ** 31))})
     # AM1-FS1 dispersion switched on, weakly bound complex: energy and force must stay consistent along the run
     dlist = [(4.5, False, 2e-3, "autodiff")] if q else [(4.5, False, 2e-3, "autodiff"), (4.5, True, 2e-3, "autodiff"),
                                                           (4.0, False, 1e-3, "autodiff"), (5.0, False, 2e-3, "analytical"),
@@ -148,6 +157,9 @@ def gen_cases(tier, seed):
                       "pad_value": "zero", "geom_seed": 1})
     # expensive first
     cases.sort(key=lambda c: -((c["cap"] or sum(r["cap"] for r in c.get("runs", []))) * sum(len(gen.molecule(m)[0]) for m in c["mols"])))
+    # the small classes that carry required monitors go first, so that a time budget hit on a loaded machine skips
+    # ordinary runs rather than a whole class
+    cases.sort(key=lambda c: 0 if (c.get("kind") in ("continue", "reuse") or c.get("dispersion") or c.get("solver") == "sp2mix") else 1)
     return cases
 
 
@@ -165,16 +177,20 @@ def _settings(case, eps=None, cold=False):
         return run.settings(case["method"], eps=case["eps"], converger=(1,), grad=case["grad"], extra=_X(case))
     if s == "sp2":
         return run.settings(case["method"], eps=case["eps"], converger=(2,), sp2=p, grad=case["grad"], extra=_X(case))
+    if s == "sp2mix":  # SP2 purification with fixed mixing (no Pulay)
+        return run.settings(case["method"], eps=case["eps"], converger=(0, float(case["mix"])), sp2=p, grad=case["grad"], extra=_X(case))
     raise ValueError(s)
 
 
 def _amp(case):
+    if case["solver"] == "sp2mix":
+        return 1.0 / (1.0 - float(case["mix"]))
     return 1.0 / (1.0 - case["solver_par"]) if case["solver"] == "mix" else 1.0
 
 
 def _eps_eff(case):
     e = case["eps"]
-    if case["solver"] == "sp2":
+    if case["solver"] in ("sp2", "sp2mix"):
         e = max(e, float(case["solver_par"]))
     return e
 
@@ -752,7 +768,23 @@ def run_case(case):
             # energies already differ there the two runs sit on different self-consistent solutions (the SCF driver's
             # answer for this molecule depends on its batch mates) and the optimiser merely follows them
             dE1 = abs(float(alone["rec"][0]["E"][0]) - float(rec[0]["E"][k]))
-            mech = MECH_SCF if dE1 > 1e-6 else None
+            # (the listed finding is Pulay's cold start reaching ANOTHER stationary point: eV-sized gap, Pulay solver, no SP2;
+            #  anything else - small energy offsets, SP2, fixed / adaptive mixing - is not that mechanism)
+            mech = MECH_SCF if (case["solver"] == "pulay" and dE1 > 1e-3 and math.isfinite(dE1)) else None
+            # energies along the judged prefix: same molecule, same algorithm, only the batch layout differs
+            dEk = max(abs(float(alone["rec"][i]["E"][0]) - float(rec[i]["E"][k])) for i in range(pre))
+            tolEiso = 100.0 * float(case["eps"]) * _amp(case) + 1e-9
+            if case["solver"] in ("sp2", "sp2mix") and len(set(case["mols"])) > 1:
+                count("sp2_heterogeneous_batch_steps_compared_with_alone", pre)
+                cells.add("sp2-batch/%s/sp2-%g" % (case["solver"], float(case["solver_par"])))
+            if mech is None and margin("alone_vs_batch_energy", dEk, tolEiso):
+                i_bad = next(i for i in range(pre) if not (abs(float(alone["rec"][i]["E"][0]) - float(rec[i]["E"][k])) <= tolEiso))
+                viol.append({"clause": "energy-independent-of-batch-mates", "mech": None,
+                             "detail": {"molecule": int(k), "name": case["mols"][k], "max_diff_eV": dEk, "bound": tolEiso,
+                                        "first_differing_evaluation": i_bad + 1, "prefix": pre, "mols": case["mols"], "alpha": alpha,
+                                        "solver": case["solver"], "solver_par": case["solver_par"], "method": case["method"],
+                                        "scf_eps": case["eps"], "E_alone": float(alone["rec"][i_bad]["E"][0]),
+                                        "E_in_batch": float(rec[i_bad]["E"][k])}})
             if mech is None and margin("alone_vs_batch_path", d, TOL_PATH) or mech is not None and d > TOL_PATH:
                 count("alone_vs_batch_scf_solution_differs", mech is not None)
                 viol.append({"clause": "path-independent-of-batch-mates", "mech": mech,
